@@ -223,6 +223,8 @@ LibResult(inv, m) ==
     [] inv.doc = "malformed" -> "err"
     \* a target below a regular file: Mkdir cannot make it, Verify cannot read it (dry run and output never look at it)
     [] inv.target = "reg/sub" /\ d.op \in {"mkdir", "verify"} /\ inv.doc # "empty" -> "err"
+    \* "many": one root with 255 children, never made: the verification lists 256 paths
+    [] inv.doc = "many" /\ d.op = "verify" -> "err"
     [] inv.doc = "empty" -> IF d.op = "verify" THEN "nil" ELSE "nil"
     \* "dot": a root named "." (the target directory itself) with the well-formed document's roots as its children
     [] inv.doc = "dot" /\ d.op = "mkdir" -> IF inv.target = "" THEN "err" ELSE "nil"   \* "." exists unless the target itself is new
